@@ -18,6 +18,9 @@ def run(ctx):
         "critical section, any schedule; deadlines abstracted: the scan may pop any heap member); the real-code witnesses "
         "are the steered late-answer and fin-vs-scan legs; the free-running concurrent leg checks the invariants at "
         "quiescent points",
+        "model assumptions (named, not proved of the code): message ids are unique (a put of an id the channel has already seen is "
+        "refused: 'id-reused'; real ids come from the guid factory, C12) and connection ids are never reused ('conn-reused'; "
+        "nsqd.clientIDSequence only grows)",
     ]
     res, broken = e2.run_property(ctx, "C02", TIE, PROPS)
     if (ctx.broken_ties or broken) and not ctx.violations:
